@@ -4,8 +4,8 @@ from .. import env, coq, runner
 
 LEVEL = 'proof'
 META = dict(
-    text='Coq theorems over a hand-written Gallina model of Circuit/Moment in the shape of circuit.py (operations as records of uid, qubits, measurement keys, control keys, parameter names; moments as lists; the placement cache and the five lazy summaries as explicit state; 37 public call forms): for every finite history the moments keep pairwise-disjoint qubits, the placement cache, whenever present, equals the summary recomputed from the moments, every lazily cached summary that is marked valid equals its recomputation, and no insert/append raises; insert with any strategy/index/operation tree loses or duplicates nothing and keeps the existing operations in order; for one operation (every strategy) and for append/constructor with any tree each operation lands behind every conflicting one and never across one; the cached append builds exactly the moments of the uncached insert at the end, and after any history insert/append (every strategy, index, tree) build the moments the same call builds on a freshly rebuilt equal circuit; the index insert returns (every strategy, index, tree, cached or not) is not in front of the insertion point and the moments from it on are an untouched tail of the moments that stood at or behind the insertion point, so every inserted operation lies in front of it; insert_into_range (one forward-moving cursor) leaves the operations it writes into the range in the order given, as a subsequence of all_operations(), for every occupancy of the range; batch_* edits are atomic; closed forms for NEW/INLINE placement and specifications of the two scans. The model is evaluated by vm_compute on the same edit histories the implementation ran (random histories, plus a fixed grid: a circuit whose append-placement cache is alive, one edit of every kind aimed at / behind the last operation on each qubit and key, then appends onto every qubit and key; and a second fixed grid: trees of every conflict shape inserted at every index of small circuits with each strategy, followed by an insert at the returned index; and a third fixed grid: all 64 three-moment circuits whose moments hold nothing / an operation on a / on b / on both, every range [s, e) and frontier start, and trees whose consecutive operations are tied through one qubit and differ on another, written by insert_into_range / insert_at_frontier; moments as uid lists, return values, exception classes, queries compared after every call), and spec-level oracles (disjointness, multiset, documented exceptions, atomicity, the order clauses of the property text, placement per strategy for one operation and for whole trees at the end, the documented meaning of the index insert / insert_into_range return (every inserted operation in front of it; follow-up inserts at it with all five strategies land after every conflicting operation of the first call; chained inserts keep call order), every edit and every query compared with a freshly rebuilt equal circuit) run on the real code.',
-    note='Trusted: Coq kernel; the Python adapters in vf/checks/c05.py (op vocabulary carrying uids, calling Cirq, printing Gallina literals, the spec-level oracles = the reading of the property text). The quantifier over histories is proved for the model and only sampled for the model-implementation correspondence. Proved for the model but only compared on samples for multi-operation mid-circuit inserts: the order clauses; for zip/concat_ragged/insert_at_frontier/batch_replace: conservation of operations. _load_contents_with_earliest_strategy is modelled as sequential cached placement. Not covered: diagrams/__str__, JSON, extended slices (step != 1), deprecated helpers. known_findings/C05.json: two defects found by this check were repaired (with_tags kept a stale placement cache; batch_insert mis-shifted later indices) and are guarded by the positive theorems and the oracles; open: concat_ragged and insert_at_frontier ignore key conflicts (kept as refuted theorems whose witnesses are replayed on every run), and two residual batch_insert edge cases (negative indices; shift after a multi-operation group that spills past the next index).',
+    text='Coq theorems over a hand-written Gallina model of Circuit/Moment in the shape of circuit.py (operations as records of uid, qubits, measurement keys, control keys, parameter names; moments as lists; the placement cache and the five lazy summaries as explicit state; 37 public call forms): for every finite history the moments keep pairwise-disjoint qubits, the placement cache, whenever present, equals the summary recomputed from the moments, every lazily cached summary that is marked valid equals its recomputation, and no insert/append raises; insert with any strategy/index/operation tree loses or duplicates nothing and keeps the existing operations in order; for one operation (every strategy) and for append/constructor with any tree each operation lands behind every conflicting one and never across one; the cached append builds exactly the moments of the uncached insert at the end, and after any history insert/append (every strategy, index, tree) build the moments the same call builds on a freshly rebuilt equal circuit; the index insert returns (every strategy, index, tree, cached or not) is not in front of the insertion point and the moments from it on are an untouched tail of the moments that stood at or behind the insertion point, so every inserted operation lies in front of it; insert_into_range (one forward-moving cursor) leaves the operations it writes into the range in the order given, as a subsequence of all_operations(), for every occupancy of the range; batch_* edits are atomic; closed forms for NEW/INLINE placement and specifications of the two scans. The model is evaluated by vm_compute on the same edit histories the implementation ran (random histories, plus a fixed grid: a circuit whose append-placement cache is alive, one edit of every kind aimed at / behind the last operation on each qubit and key, then appends onto every qubit and key; and a second fixed grid: trees of every conflict shape inserted at every index of small circuits with each strategy, followed by an insert at the returned index; and a third fixed grid: all 64 three-moment circuits whose moments hold nothing / an operation on a / on b / on both, every range [s, e) and frontier start, and trees whose consecutive operations are tied through one qubit and differ on another, written by insert_into_range / insert_at_frontier; moments as uid lists, return values, exception classes, queries compared after every call), and spec-level oracles (disjointness, multiset, documented exceptions, atomicity, the order clauses of the property text, placement per strategy for one operation and for whole trees at the end, the documented meaning of the index insert / insert_into_range return (every inserted operation in front of it; follow-up inserts at it with all five strategies land after every conflicting operation of the first call; chained inserts keep call order), every edit and every query compared with a freshly rebuilt equal circuit) run on the real code. Several circuit objects (Circ/Store.v): the circuit under edit plus every object put aside (the source a construction expression was evaluated on, or a circuit derived on the side while the source stays under edit); proved: the circuit under edit is what its own calls build, an object put aside is never changed by later calls and is determined by the calls made up to the point it was put aside. Every history is evaluated in that model (trace of the circuit under edit and final contents of everything put aside); on the real code every object put aside (and every frozen view handed out) is re-read after every call and queried against a rebuilt equal circuit at the end; a fourth fixed grid derives a circuit by every expression (copy spellings, with_tags, untagged, slices, +, *, **-1, transform_qubits, zip, concat_ragged, on tagged and untagged circuits, through the frozen view, with filled summaries) and then runs every mutator on the derived circuit or on the source.',
+    note='Trusted: Coq kernel; the Python adapters in vf/checks/c05.py (op vocabulary carrying uids, calling Cirq, printing Gallina literals, the spec-level oracles = the reading of the property text). The quantifier over histories is proved for the model and only sampled for the model-implementation correspondence. Proved for the model but only compared on samples for multi-operation mid-circuit inserts: the order clauses; for zip/concat_ragged/insert_at_frontier/batch_replace: conservation of operations. _load_contents_with_earliest_strategy is modelled as sequential cached placement. Tags are not part of the model state: the adapter reads Circuit.tags to render `untagged` (a copy when there are tags, the object itself otherwise). Not covered: diagrams/__str__, JSON, extended slices (step != 1), deprecated helpers. known_findings/C05.json: two defects found by this check were repaired (with_tags kept a stale placement cache; batch_insert mis-shifted later indices) and are guarded by the positive theorems and the oracles; open: concat_ragged and insert_at_frontier ignore key conflicts (kept as refuted theorems whose witnesses are replayed on every run), and two residual batch_insert edge cases (negative indices; shift after a multi-operation group that spills past the next index).',
     technique='Rocq/Coq proof (induction over call lists, invariants of the insertion loops) over an executable Gallina model + vm_compute correspondence on random edit histories + spec-level oracles on the implementation',
 )
 
@@ -221,7 +221,17 @@ QUERIES = ('q_all_qubits', 'q_freeze', 'q_len', 'q_is_meas', 'q_is_param', 'q_pn
 BASIC = ('empty', 'new', 'insert', 'append') + QUERIES
 SUMMARY_QUERIES = ('q_all_qubits', 'q_is_param', 'q_pnames', 'q_is_meas', 'q_freeze')
 ATOMIC = ('bremove', 'breplace', 'binto', 'binsert')      # documented all-or-nothing
-REPLACING = ('new', 'copy', 'with_tags', 'slice', 'add', 'radd', 'mul', 'inv', 'transform', 'zip', 'concat')
+REPLACING = ('new', 'copy', 'with_tags', 'untagged', 'slice', 'add', 'radd', 'mul', 'inv', 'transform', 'zip', 'concat')
+CONSTRUCTS = REPLACING + ('empty',)     # expressions whose value is a new circuit object (Circ/Store.v: constructs)
+SIDEABLE = ('copy', 'with_tags', 'untagged', 'slice', 'add', 'radd', 'mul', 'inv', 'zip', 'concat')
+
+
+def returns_self(w, call):
+    """The expressions documented to return the circuit object itself (no new object is made)."""
+    k = call['c']
+    return ((k == 'untagged' and not call.get('frozen') and not w.c.tags)       # 'untagged' of a Circuit without tags
+            or (k == 'copy' and call.get('via') == 'nocopy')                    # unfreeze(copy=False)
+            or (k == 'with_tags' and bool(call.get('none'))))                   # with_tags() without new tags
 
 
 def circuit_of(w, moms, frozen=False):
@@ -234,6 +244,13 @@ def circuit_of(w, moms, frozen=False):
 def exec_call(w, call):
     """Runs the call on the real code; returns a canonical result tuple.  Construction calls replace w.c."""
     cirq, k = w.cirq, call['c']
+    if call.get('side'):
+        # d = <expression on the circuit>: the new object is put aside (w.side), the variable keeps the source
+        src = w.c
+        r = exec_call(w, {f: v for f, v in call.items() if f != 'side'})
+        derived, w.c = w.c, src
+        w.side = None if (r[0] == 'err' or derived is src) else derived
+        return r if (r[0] == 'err' or derived is src) else ('moms', w.moments_uids(derived))
     fz = call.get('frozen', False)
     me = (lambda: w.c.freeze()) if fz else (lambda: w.c)
     back = (lambda r: r.unfreeze()) if fz else (lambda r: r)
@@ -246,10 +263,21 @@ def exec_call(w, call):
             return ('none',)
         if k == 'copy':
             via = call.get('via', 'copy')
-            w.c = w.c.copy() if via == 'copy' else (w.c.freeze().unfreeze() if via == 'freeze' else w.c.unfreeze())
+            if via == 'copymod':
+                import copy as _copy
+                w.c = _copy.copy(w.c)
+            elif via == 'nocopy':
+                w.c = w.c.unfreeze(copy=False)
+            elif via == 'frozen_nocopy':
+                w.c = w.c.freeze().unfreeze(copy=False)
+            else:
+                w.c = w.c.copy() if via == 'copy' else (w.c.freeze().unfreeze() if via == 'freeze' else w.c.unfreeze())
             return ('none',)
         if k == 'with_tags':
-            w.c = w.c.with_tags('t')
+            w.c = w.c.with_tags() if call.get('none') else w.c.with_tags('t')
+            return ('none',)
+        if k == 'untagged':
+            w.c = back(me().untagged)
             return ('none',)
         if k == 'slice':
             w.c = back(me()[call['a']:call['b']])
@@ -392,6 +420,8 @@ def coq_call(w, call):
         return 'CCopy'
     if k == 'with_tags':
         return 'CWithTags'
+    if k == 'untagged':         # of a circuit with tags (or through the frozen view): _from_moments, as copy()
+        return 'CCopy'
     if k == 'slice':
         return f'CSlice {coq_optz(call["a"])} {coq_optz(call["b"])}'
     if k == 'add':
@@ -448,6 +478,13 @@ def coq_call(w, call):
     if k == 'q_op_at':
         return f'QOperationAt {Z(call["q"])} {Z(call["i"])}'
     raise AssertionError(k)
+
+
+def coq_scall(w, call):
+    """The call as a call of the several-objects model (Circ/Store.v); rendered before the call runs."""
+    if call['c'] in CONSTRUCTS and returns_self(w, call):
+        return 'SSelf'
+    return f'{"SSide" if call.get("side") else "SMain"} ({coq_call(w, call)})'
 
 
 def coq_res(r):
@@ -554,7 +591,46 @@ class Gen:
     def qubits(self, lo=1, hi=2):
         return self.rng.sample(range(NQ), self.rng.randint(lo, hi))
 
+    def derive(self):
+        rng = self.rng
+        k = rng.choice(['copy', 'with_tags', 'with_tags', 'untagged', 'untagged', 'slice', 'add', 'add', 'radd', 'mul', 'inv', 'transform',
+                        'zip', 'zip', 'concat', 'concat', 'empty'])
+        fz = rng.random() < 0.3
+        if k == 'copy':
+            return dict(c='copy', via=rng.choice(['copy', 'freeze', 'unfreeze', 'copymod', 'nocopy', 'frozen_nocopy']))
+        if k == 'with_tags':
+            return dict(c=k, none=rng.random() < 0.2)
+        if k == 'untagged':
+            return dict(c=k, frozen=rng.random() < 0.2)
+        if k == 'empty':
+            return dict(c=k)
+        if k == 'slice':
+            return dict(c='slice', a=self.opt_index(), b=self.opt_index(), frozen=fz)
+        if k == 'add':
+            if rng.random() < 0.5:
+                return dict(c='add', items=[{'m': m} for m in self.circuit()], circ=True, frozen=fz, ofrozen=rng.random() < 0.3)
+            return dict(c='add', items=self.items(), frozen=fz)
+        if k == 'radd':
+            return dict(c='radd', items=self.items(), frozen=fz)
+        if k == 'mul':
+            return dict(c='mul', n=rng.choice([0, 1, 2, 2, 3, -1]), r=rng.random() < 0.4, frozen=fz)
+        if k == 'inv':
+            return dict(c='inv', frozen=fz)
+        if k == 'transform':
+            src = rng.sample(range(NQ), rng.randint(0, NQ))
+            if rng.random() < 0.8:
+                dst = list(src)
+                rng.shuffle(dst)
+            else:
+                dst = [rng.randrange(NQ + 2) for _ in src]
+            return dict(c='transform', f=[[a, b] for a, b in zip(src, dst)])
+        others = [self.circuit(4) for _ in range(rng.choice([0, 1, 1, 2]))]
+        return dict(c=k, others=others, align=rng.choice(['LEFT', 'LEFT', 'RIGHT', 'FIRST']), astr=rng.random() < 0.3,
+                    frozen=fz, ofrozen=rng.random() < 0.5)
+
     def call(self):
+        if getattr(self, 'script', None):       # calls laid down in advance (a grid's fixed opening), then free drawing
+            return self.script.pop(0)
         rng, n = self.rng, len(self.w.c)
         r = rng.random()
         ret = getattr(self.w, 'last_ret', None)
@@ -624,36 +700,11 @@ class Gen:
             if k == 'delslice':
                 return dict(c='delslice', a=self.opt_index(), b=self.opt_index())
             return dict(c='imul', n=rng.choice([0, 1, 2, 2, 3, -1]))
-        if r < 0.84:        # algebra
-            k = rng.choice(['copy', 'with_tags', 'slice', 'add', 'add', 'radd', 'mul', 'inv', 'transform', 'zip', 'zip', 'concat', 'concat', 'empty'])
-            fz = rng.random() < 0.3
-            if k == 'copy':
-                return dict(c='copy', via=rng.choice(['copy', 'freeze', 'unfreeze']))
-            if k in ('with_tags', 'empty'):
-                return dict(c=k)
-            if k == 'slice':
-                return dict(c='slice', a=self.opt_index(), b=self.opt_index(), frozen=fz)
-            if k == 'add':
-                if rng.random() < 0.5:
-                    return dict(c='add', items=[{'m': m} for m in self.circuit()], circ=True, frozen=fz, ofrozen=rng.random() < 0.3)
-                return dict(c='add', items=self.items(), frozen=fz)
-            if k == 'radd':
-                return dict(c='radd', items=self.items(), frozen=fz)
-            if k == 'mul':
-                return dict(c='mul', n=rng.choice([0, 1, 2, 2, 3, -1]), r=rng.random() < 0.4, frozen=fz)
-            if k == 'inv':
-                return dict(c='inv', frozen=fz)
-            if k == 'transform':
-                src = rng.sample(range(NQ), rng.randint(0, NQ))
-                if rng.random() < 0.8:
-                    dst = list(src)
-                    rng.shuffle(dst)
-                else:
-                    dst = [rng.randrange(NQ + 2) for _ in src]
-                return dict(c='transform', f=[[a, b] for a, b in zip(src, dst)])
-            others = [self.circuit(4) for _ in range(rng.choice([0, 1, 1, 2]))]
-            return dict(c=k, others=others, align=rng.choice(['LEFT', 'LEFT', 'RIGHT', 'FIRST']), astr=rng.random() < 0.3,
-                        frozen=fz, ofrozen=rng.random() < 0.5)
+        if r < 0.84:        # algebra: the value is a new circuit; bound to the variable, or put aside while the variable keeps the source
+            d = self.derive()
+            if d['c'] in SIDEABLE and rng.random() < 0.3:
+                d['side'] = True
+            return d
         k = rng.choice(QUERIES)
         if k == 'q_next':
             return dict(c=k, q=self.qubits(), start=rng.randint(-1, n + 2), maxd=rng.choice([None, None, 0, 1, 2, 5, -1]))
@@ -667,9 +718,9 @@ class Gen:
 
 
 # ---- spec-level oracles on the real code ---------------------------------------------------------------
-def oracle_wf(w):
+def oracle_wf(w, c=None):
     """Every moment holds operations on pairwise disjoint qubits (read off the operations themselves)."""
-    for i, m in enumerate(w.c.moments):
+    for i, m in enumerate((w.c if c is None else c).moments):
         seen = set()
         for op in m.operations:
             for q in op.qubits:
@@ -1204,12 +1255,42 @@ def oracle_queries(w, rng, heavy=False):
     return probs
 
 
+# ---- several circuit objects: what was put aside stays what it was ---------------------------------------
+def put_aside(w, c, role, at, call):
+    """Remembers a circuit object the history no longer edits: the source of a construction expression the variable was
+    rebound by, or a circuit derived from the circuit under edit.  Its contents are determined by the calls made on it,
+    so from now on nothing may change it."""
+    w.held.append(dict(c=c, mobjs=list(c.moments), moms=w.moments_uids(c), role=role, at=at, how=call, bad=False))
+
+
+def world_of(w, c):
+    s = World.__new__(World)
+    s.cirq, s.v = w.cirq, w.v
+    s.ops, s.ops0, s.objs = w.ops, w.ops0, w.objs
+    s.c = c
+    return s
+
+
+def oracle_aside(w, call):
+    """No object put aside earlier (and no frozen view handed out earlier) was changed by this call."""
+    out = []
+    for hd in w.held + w.views:
+        if hd['bad'] or list(hd['c'].moments) == hd['mobjs']:
+            continue
+        hd['bad'] = True
+        now = w.moments_uids(hd['c'])
+        out.append(f'the {hd["role"]} at step {hd["at"]} ({hd["how"]}) held the moments {hd["moms"]}; no call was made on it since, '
+                   f'but after {call} on the other circuit it holds {now}')
+    return out
+
+
 # ---- one history ---------------------------------------------------------------------------------------
 def run_history(w, calls, rng=None, gen=None, n_calls=0):
     """Executes given calls (or draws n_calls with gen).  Returns (calls, trace, problems);
     a problem is (step, oracle kind, description)."""
     out_calls, trace, problems, rendered = [], [], [], []
     w.rendered = rendered
+    w.held, w.views, w.side = [], [], None
     last_insert = None      # the latest insert / insert_into_range that returned an index, while nothing else edited the circuit
     w.last_ret = None
     it = iter(calls) if gen is None else None
@@ -1220,7 +1301,10 @@ def run_history(w, calls, rng=None, gen=None, n_calls=0):
         before = w.moments_uids()
         spec = Spec(w, call, before)
         want = spec.expected_error()
-        rendered.append(coq_call(w, call))
+        rendered.append(coq_scall(w, call))
+        side = bool(call.get('side'))
+        same = call['c'] in CONSTRUCTS and returns_self(w, call)
+        old = w.c
         shadow = None
         if call['c'] not in QUERIES and call['c'] not in ('empty', 'new'):
             try:
@@ -1239,10 +1323,32 @@ def run_history(w, calls, rng=None, gen=None, n_calls=0):
         got = res[1] if res[0] == 'err' else None
         if want != got:
             add('raises', f'{call["c"]} raised {got}, the documentation prescribes {want}')
+        # several objects: nothing that was put aside earlier changed; then this call's own new / old object is put aside
+        for p in oracle_aside(w, call):
+            add('alias', p)
+        made = call['c'] in CONSTRUCTS and got is None and not same
+        if made:
+            new_obj = w.side if side else w.c
+            if new_obj is None or new_obj is old:
+                add('alias', f'{call} is an expression that makes a new circuit, but it returned the circuit object it was evaluated on')
+                made = False
+        if made and side:
+            # the circuit derived on the side is judged like the result of the expression; the source must be untouched
+            put_aside(w, w.side, 'circuit derived', at, call)
+            if moms != before:
+                add('alias', f'{call} only reads the circuit, but changed it from {before} to {moms}')
+            p = oracle_wf(w, w.side)
+            if p:
+                add('wf', p)
+            judged = w.held[-1]['moms']
+        else:
+            if made:
+                put_aside(w, old, 'circuit left behind', at, call)
+            judged = moms
         flat_b = collections.Counter(u for m in before for u in m)
-        flat_a = collections.Counter(u for m in moms for u in m)
+        flat_a = collections.Counter(u for m in judged for u in m)
         if got is None:
-            exp = spec.expected_uids()
+            exp = flat_b if same else spec.expected_uids()
             if flat_a != exp:
                 add('multiset', f'operations lost {sorted((exp - flat_a).elements())} / duplicated or invented {sorted((flat_a - exp).elements())}')
         elif call['c'] in ATOMIC or call['c'] in REPLACING or want is not None:
@@ -1252,13 +1358,14 @@ def run_history(w, calls, rng=None, gen=None, n_calls=0):
             full = flat_b + collections.Counter(spec.inserted())
             if (flat_b - flat_a) or (flat_a - full):
                 add('multiset', f'after the failing call: lost {sorted((flat_b - flat_a).elements())}, extra {sorted((flat_a - full).elements())}')
-        p = oracle_order(w, call, before, moms, res)
+        res_j = ('none',) if (side and got is None) else res
+        p = oracle_order(w, call, before, judged, res_j)
         if p:
             add('order', p)
-        p = oracle_placement(w, call, before, moms, res)
+        p = oracle_placement(w, call, before, judged, res_j)
         if p:
             add('placement', p)
-        p = oracle_returned_index(w, call, before, moms, res)
+        p = None if side else oracle_returned_index(w, call, before, moms, res)
         if p:
             add('retindex', p)
         # chained inserts written out in the history: k = c.insert(k, A, s); c.insert(k, B, s') keeps A before B
@@ -1295,11 +1402,23 @@ def run_history(w, calls, rng=None, gen=None, n_calls=0):
             # the oracle has filled the circuit's lazy summaries: make that part of the history the model sees
             for q in SUMMARY_QUERIES:
                 syn = dict(c=q, syn=True)
-                rendered.append(coq_call(w, syn))
+                rendered.append(coq_scall(w, syn))
                 out_calls.append(syn)
                 trace.append((exec_call(w, syn), w.moments_uids()))
+            # the frozen view handed out just now (q_freeze above) is an object of its own: later edits must not reach it
+            fv = w.c.freeze()
+            if not any(v['c'] is fv for v in w.views):
+                w.views = w.views[-2:] + [dict(c=fv, mobjs=list(fv.moments), moms=w.moments_uids(fv), role='frozen view taken',
+                                               at=at, how='freeze()', bad=False)]
     for p in oracle_queries(w, random.Random(len(out_calls)), heavy=True):
         problems.append((len(out_calls) - 1, 'query', p))
+    # every query on an object put aside answers as a freshly rebuilt equal circuit would (its lazily cached summaries
+    # belong to it alone)
+    for hd in w.held[-2:]:
+        if not hd['bad']:
+            for p in oracle_queries(world_of(w, hd['c']), random.Random(len(out_calls) + 1)):
+                problems.append((len(out_calls) - 1, 'query', f'on the {hd["role"]} at step {hd["at"]} ({hd["how"]}): {p}'))
+    w.held_final = [w.moments_uids(hd['c']) for hd in w.held]
     return out_calls, trace, problems
 
 
@@ -1324,8 +1443,9 @@ def run(ctx):
                 '(circuits built by Circuit(tree)/appends in three ways, one aimed edit of every kind on/behind the last operation of each qubit and key, '
                 'then single-operation and whole-tree appends onto all qubits and keys); plus the insert-then-insert grid (18 tree shapes x every index x 5 strategies on a '
                 'key-free base, a base with keys and rng-drawn bases, each followed by an insert at the returned index); plus the write-into-range grid (every 3-moment occupancy pattern over two qubits '
-                'x ranges / frontier starts x trees tied through shared qubits in every order, a base with keys, rng-drawn bases and trees, half followed by an insert at the returned index); after every call the '
-                'moments (uid lists), return value / exception class are compared with the Gallina model; non-trivial = >= 3 mutating '
+                'x ranges / frontier starts x trees tied through shared qubits in every order, a base with keys, rng-drawn bases and trees, half followed by an insert at the returned index); '
+                'plus the derive-then-edit grid (two bases x tags / no tags x summaries filled or not x 37 circuit-making expressions x edits on the derived circuit or on the source, every in-place and batch mutator, plus rng-drawn openings); after every call the '
+                'moments (uid lists), return value / exception class are compared with the Gallina model (and at the end the contents of every circuit object put aside); non-trivial = >= 3 mutating '
                 'calls, >= 3 operations left and a moment with >= 2 operations; distinct by canonical history')
     ctx.assumptions += ['vf/checks/c05.py adapters: op vocabulary (uid-carrying gates/operations), canonicalisation of results, Gallina literal printing',
                         'spec-level oracles in vf/checks/c05.py are the reading of the property text used to classify disagreements']
@@ -1338,6 +1458,7 @@ def run(ctx):
     n = 500 if ctx.tier == 'quick' else 6000
     history_stream(ctx, cirq, vocab, n)
     range_stream(ctx, cirq, vocab)
+    derive_stream(ctx, cirq, vocab)
 
 
 # histories the Coq development uses as witnesses of refuted statements: replayed on the implementation
@@ -1634,6 +1755,109 @@ def grid_stream(ctx, cirq, vocab):
     compare_with_model(ctx, cirq, vocab, hists, 'grid', 300)
 
 
+# ---- derive-then-edit: circuit objects derived from one another are independent -------------------------------------
+# A circuit (with and without tags, lazily cached summaries filled or not) ; one expression of every kind that makes a
+# circuit from it (copies in every spelling, with_tags, untagged, slices, +, *, ** -1, transform_qubits, zip,
+# concat_ragged - on the circuit and on its frozen view - and the spellings documented to return the circuit itself) ;
+# then every in-place mutator followed by every batch mutator, either on the derived circuit (the source is put aside) or on
+# the source (the derived circuit is put aside).  After every call the objects put aside must hold what they held; at the
+# end every query on them must answer as a rebuilt equal circuit does; the model (Circ/Store.v) is compared on the trace of
+# the circuit under edit and on the final contents of everything put aside.
+PLAIN_BASE = {1: U1([0]), 2: U1([0, 1]), 3: U1([2]), 4: U1([3]), 5: U1([1, 2]), 6: U1([0]), 7: U1([4]), 8: U1([3, 4])}
+
+
+def derive_forms(o1, o2):
+    out = [dict(c='copy', via=v) for v in ('copy', 'freeze', 'unfreeze', 'copymod', 'nocopy', 'frozen_nocopy')]
+    out += [dict(c='with_tags'), dict(c='with_tags', none=True), dict(c='untagged'), dict(c='untagged', frozen=True)]
+    out += [dict(c='slice', a=a, b=b, frozen=f) for (a, b) in ((None, None), (1, None), (0, 2), (None, -1)) for f in (False, True)]
+    out += [dict(c='add', items=[]), dict(c='add', items=[o1]), dict(c='add', items=[{'m': [o1]}], circ=True),
+            dict(c='add', items=[], circ=True, ofrozen=True), dict(c='add', items=[], frozen=True),
+            dict(c='radd', items=[]), dict(c='radd', items=[o1]),
+            dict(c='mul', n=1), dict(c='mul', n=1, r=True), dict(c='mul', n=2), dict(c='mul', n=1, frozen=True),
+            dict(c='inv'), dict(c='transform', f=[]), dict(c='transform', f=[[0, 1], [1, 0]]),
+            dict(c='zip', others=[], align='LEFT'), dict(c='zip', others=[[[o2]]], align='LEFT'),
+            dict(c='zip', others=[], align='LEFT', frozen=True),
+            dict(c='concat', others=[], align='LEFT'), dict(c='concat', others=[[[o2]]], align='LEFT')]
+    return out
+
+
+def derive_histories(cirq, vocab, rng, tier):
+    """Yields (ops, calls, free): free > 0 asks for that many more calls drawn by the generator of the random stream."""
+    count = 0
+    for base, inv_ok in ((FIXED_BASE, False), (PLAIN_BASE, True)):
+        ops = dict(base)
+        nxt = 40
+        e = []
+        for q in (0, 1, 2, 3, 0, 1, 2, 3, 4, 0):
+            ops[nxt] = U1([q])
+            e.append(nxt)
+            nxt += 1
+        for q in (5, 7, 5, 6, 6):             # qubits no base uses: p, r, p2 for the batch edits; o2 for zip / concat; o1
+            ops[nxt] = U1([q])
+            nxt += 1
+        pq, rq, p2, o2, o1 = nxt - 5, nxt - 4, nxt - 3, nxt - 2, nxt - 1
+        in_place = [dict(c='append', items=[e[0]], s='EARLIEST', iadd=False), dict(c='insert', i=0, items=[e[1]], s='NEW'),
+                    dict(c='clear', q=[0], idx=[0, 1, 2]), dict(c='setitem', i=-1, m=[e[2]]), dict(c='delitem', i=0),
+                    dict(c='setslice', a=0, b=1, ms=[[e[3]]]), dict(c='range', items=[e[4]], s=0, e=1),
+                    dict(c='frontier', items=[e[5]], start=0, f=None), dict(c='append', items=[e[6]], s='EARLIEST', iadd=True)]
+        batch = [dict(c='binsert', ins=[[0, [e[7]]], [1, [e[8]]]]), dict(c='binto', rs=[[0, [pq, rq]]]),
+                 dict(c='breplace', rs=[[0, pq, p2]]), dict(c='bremove', rs=[[0, rq]]), dict(c='delslice', a=-1, b=None),
+                 dict(c='append', items=[e[9]], s='EARLIEST', iadd=False), dict(c='imul', n=2)]
+        # quick: every in-place mutator, then batch edits of the three kinds (a group of inserts, into a moment, repetition)
+        seqs = [in_place[:-1] + [batch[0], batch[1], batch[-1]]] if tier == 'quick' else \
+            [in_place + batch, batch + in_place[:-1]] + [[x] for x in in_place[:-1] + batch]
+        for form in derive_forms(o1, o2):
+            if form['c'] == 'inv' and not inv_ok:
+                continue
+            if tier == 'quick' and inv_ok != (form['c'] not in ('copy', 'with_tags', 'untagged', 'slice')):
+                continue            # quick tier: the base with keys for the expressions that keep the operations as they are, the plain one for the others
+            for tagged in (False, True):
+                for side in (False, True):
+                    if side and form['c'] not in SIDEABLE:
+                        continue
+                    for seq in seqs:
+                        count += 1
+                        calls = [dict(c='new', items=sorted(base), s='EARLIEST')]
+                        if tagged:
+                            calls.append(dict(c='with_tags'))
+                        if count % 2:       # the lazily cached summaries of the source are filled
+                            calls += [dict(c='q_all_qubits'), dict(c='q_freeze'), dict(c='q_is_param')]
+                        calls.append(dict(form, side=True) if side else dict(form))
+                        yield dict(ops), calls + [dict(x) for x in seq], 0
+    # openings drawn for this VERIF_SEED: any circuit, tags or not, any expression, then free drawing
+    for _ in range(40 if tier == 'quick' else 600):
+        w0 = World(cirq, vocab)
+        g0 = Gen(rng, w0)
+        calls = [dict(c='new', items=g0.items(3, 8), s=g0.strategy())]
+        if rng.random() < 0.5:
+            calls.append(dict(c='with_tags'))
+        w0.c = cirq.Circuit()
+        for c in calls:
+            exec_call(w0, c)
+        d = g0.derive()
+        if d['c'] in SIDEABLE and rng.random() < 0.5:
+            d['side'] = True
+        yield dict(w0.ops0), calls + [d], rng.choice([3, 5, 8])
+
+
+def derive_stream(ctx, cirq, vocab):
+    import random
+    hists = []
+    cap = collections.Counter(max=3)
+    for ops, calls, free in derive_histories(cirq, vocab, ctx.rng, ctx.tier):
+        w = World(cirq, vocab, ops)
+        if free:
+            gen = Gen(ctx.rng, w)
+            gen.next_uid = max(ops, default=0) + 1
+            gen.script = list(calls)
+            calls, trace, problems = run_history(w, None, ctx.rng, gen, len(calls) + free)
+        else:
+            calls, trace, problems = run_history(w, calls, random.Random(0))
+        hists.append((w, calls, trace))
+        account(ctx, 'derive-then-edit', w, calls, trace, problems, cirq, vocab, cap=cap)
+    compare_with_model(ctx, cirq, vocab, hists, 'derive', 300, max_search=6)
+
+
 # ---- the returned insertion index: one insert of every tree shape at every index with every strategy, then a chained insert --------
 # The index an insert returns is only observable through what is done with it.  The grid inserts trees of every conflict
 # shape (one operation; two or three on one qubit; independent ones; two-qubit operations tied to one-qubit ones in every
@@ -1883,23 +2107,30 @@ def compare_with_model(ctx, cirq, vocab, hists, name, shard, max_search=None):
     for s in range(0, len(hists), shard):
         part = hists[s:s + shard]
         text = ('From Coq Require Import ZArith List Bool.\nFrom VF Require Import Circ.Moments Circ.Placement Circ.Insert '
-                'Circ.BatchEdit Circ.History Circ.Compare.\nImport ListNotations.\nOpen Scope Z_scope.\n')
-        text += 'Definition hists : list (list call * list (res * list (list Z))) := [\n'
+                'Circ.BatchEdit Circ.History Circ.Compare Circ.Store.\nImport ListNotations.\nOpen Scope Z_scope.\n')
+        text += 'Definition hists : list (list scall * list (res * list (list Z)) * list (list (list Z))) := [\n'
         rows = []
         for (w, calls, trace) in part:
             cs = '[' + ';\n   '.join(w.rendered) + ']'
             ts = '[' + ';\n   '.join(f'({coq_res(r)}, {coq_zll(m)})' for r, m in trace) + ']'
-            rows.append(f'(({cs}),\n  ({ts}))')
+            hs = '[' + ';\n   '.join(coq_zll(m) for m in w.held_final) + ']'
+            rows.append(f'(({cs}),\n  ({ts}),\n  ({hs}))')
         text += ';\n'.join(rows) + '].\n'
-        text += 'Eval vm_compute in bad_histories hists.\n'
+        text += 'Eval vm_compute in bad_store_histories hists.\n'
         vals = coq.parse_evals(coq.coq_eval(f'c05_{name}_{ctx.seed}_{s}', text))
         assert len(vals) == 1, vals
         nums = coq.parse_nat_list(vals[0])
         for hi, si in zip(nums[0::2], nums[1::2]):
             w, calls, trace = part[hi]
-            ctx.mark_broken('correspondence:history',
-                            f'model and implementation differ at step {si} ({calls[si]}) of {name} history {s + hi}: implementation gave {trace[si]}; '
-                            f'history: {json.dumps(history_doc(w, calls[:si + 1]))[:30000]}')
+            if si >= len(calls):       # the trace of the circuit under edit agrees; an object that was put aside does not
+                ctx.mark_broken('correspondence:history',
+                                f'the circuits put aside during {name} history {s + hi} hold {w.held_final} at its end, the model says otherwise; '
+                                f'history: {json.dumps(history_doc(w, calls))[:30000]}')
+                si = len(calls) - 1
+            else:
+                ctx.mark_broken('correspondence:history',
+                                f'model and implementation differ at step {si} ({calls[si]}) of {name} history {s + hi}: implementation gave {trace[si]}; '
+                                f'history: {json.dumps(history_doc(w, calls[:si + 1]))[:30000]}')
             searched += 1
             if max_search is None or searched <= max_search:
                 spec_search(ctx, cirq, vocab, w, calls, si)
